@@ -39,6 +39,10 @@ func init() {
 			if r.Bool(0.5) {
 				cfg.PCommitSubmit = 0.3
 			}
+			if r.Bool(0.5) {
+				// submissions between the legs of a node's own overlapping gossips
+				cfg.PAsync = 0.1 + 0.4*r.Float()
+			}
 			mixStores(cfg, r, 0.2)
 			if r.Bool(0.4) {
 				cfg.PCrash = 0.01
@@ -75,9 +79,29 @@ func init() {
 			}
 			mixStores(cfg, r, 0.2)
 			withMembership(cfg, r, 0.5)
+			if r.Bool(0.6) {
+				// a Byzantine validator gossips adversarial signature payloads
+				if cfg.N0 < 4 {
+					cfg.N0 = 4
+					cfg.Stores = []string{"inmem", "inmem", "inmem", "inmem"}
+				}
+				cfg.Byz = 1
+				cfg.PByz = 0.08
+				cfg.PSilence = 0
+			}
 			return cfg
 		},
-		run: clusterRun,
+		run: func(c *Cluster, spec *runSpec) {
+			c.byzHandler = c.byzSigStep
+			c.byzGen = func(g *genState) *Step {
+				hs := c.liveBabbling()
+				if len(hs) == 0 || c.byzNode() == nil {
+					return nil
+				}
+				return &Step{Op: "byz", Kind: "sigforge", A: hs[c.gen.Intn(len(hs))].idx, N: c.gen.Intn(len(sigForgeOps)), B: c.gen.Intn(2)}
+			}
+			clusterRun(c, spec)
+		},
 	}
 	profiles["C10"] = &profile{
 		config: func(r *RNG, thorough bool) *RunConfig {
